@@ -41,6 +41,10 @@ def run(ctx):
     ctx.rule("R11.o", "no hook runs on shared containers: in __param_inheritance the copy of the mutable slot values taken over from an ancestor precedes param._update_state() (which, for "
                       "selectors, appends the merged default to `_objects` in place) -- otherwise creating a subclass edits the ancestor's Parameter", floor=1)
     copies_before_hooks(ctx, "R11.o")
+    ctx.rule("R11.u", "selector model, _update_state: the hook between merge and re-validation appends the merged default to the objects only when check_on_set is False (a dynamic default function "
+                      "does not switch the membership check off)", floor=1)
+    from checks import selector_model
+    selector_model.update_state_model(ctx, "R11.u")
     ctx.rule("R11.v", "the re-validation of a merged default is only as good as the validators it calls: the bounds validators of the Number and Range families, interpreted against an oracle written "
                       "from the property (shared with R01.f) -- a Range validator that checks each end only against its own bound lets a descending default contradict bounds declared at another level", floor=5)
     from checks.c01_bounds import rule_f
